@@ -127,7 +127,7 @@ Definition eval14i (c_alg : N) (c_flt : bool) (ws : list Z) (p0 : list N) (c_imp
    x' = (x * 1103515245 + 12345) mod 2^31, r = x' / 2^16 (15 bits).
    element i: weight 1 + r mod wmax (times [mult] in the last [t] positions), then a part id:
    mode 0: r mod k everywhere;  mode 1: r mod (k-1) in the head, k-1 in the tail (all of the last
-   part's weight sits in the tail). *)
+   part's weight sits in the tail);  mode 2: see below. *)
 Definition lcg (x : N) : N := N.land (x * 1103515245 + 12345) 2147483647.
 Definition gen14 (n k t wmax mult seed mode : N) : list Z * list N :=
   let step (st : N * N * list Z * list N) :=
@@ -139,6 +139,11 @@ Definition gen14 (n k t wmax mult seed mode : N) : list Z * list N :=
     let x2 := lcg x1 in
     let r := N.shiftr x2 16 in
     let q := if (mode =? 0)%N then (r mod k)%N else if tail then (k - 1)%N else (r mod (k - 1))%N in
+    (* mode 2 (many moves): element i < k is a heavy weight [mult] in part i; the next [t] elements are
+       small weights all in part 0 (the surplus VnBest has to move away one by one); the rest are small
+       weights in random parts *)
+    let w := if (mode =? 2)%N then (if (i <? k)%N then mult else (1 + (N.shiftr x1 16) mod wmax)%N) else w in
+    let q := if (mode =? 2)%N then (if (i <? k)%N then i else if (i <? k + t)%N then 0%N else (r mod k)%N) else q in
     (x2, (i + 1)%N, Z.of_N w :: ws, q :: ps) in
   let '(_, _, ws, ps) := N.iter n step (seed, 0%N, [], []) in
   (rev ws, rev ps).
